@@ -21,19 +21,19 @@ type GenParams struct {
 // genState tracks what the generator believes, only to aim transactions at interesting places; it
 // is never used as an oracle.
 type genState struct {
-	u        *Universe
-	r        *hx.Rand
-	chain    string
-	nonce    uint64
-	used     []uint64
-	cands    []Payload // candidate batch configs
-	eonGuess uint64
-	aim      *Impl
-	script   []*TxSpec // scripted transactions aimed at one sentence of a property; served first
+	u          *Universe
+	r          *hx.Rand
+	chain      string
+	nonce      uint64
+	used       []uint64
+	cands      []Payload // candidate batch configs
+	eonGuess   uint64
+	aim        *Impl
+	script     []*TxSpec // scripted transactions aimed at one sentence of a property; served first
 	aimKeypers []common.Address
-	valKeys  [][]byte
-	encKeys  [][]byte
-	maxIndex uint64
+	valKeys    [][]byte
+	encKeys    [][]byte
+	maxIndex   uint64
 }
 
 func valKey(i int) []byte {
@@ -163,6 +163,10 @@ func (g *genState) newCandidate() Payload {
 	}
 	if g.r.Chance(5) {
 		ks = g.rawAddrs(4)
+	}
+	if g.r.Chance(6) && len(ks) > 0 { // a keyper listed twice in a row
+		i := g.r.Intn(len(ks))
+		ks = append(append(append([][]byte{}, ks[:i+1]...), ks[i]), ks[i+1:]...)
 	}
 	return Payload{Kind: "bc", A: act, T: thr, I: idx, Addrs: ks}
 }
@@ -298,6 +302,9 @@ func (g *genState) payload() Payload {
 		}
 		return Payload{Kind: "ap", A: e, Addrs: as, Seq: seq}
 	default:
+		if r.Chance(50) {
+			return Payload{Kind: "nomsg"}
+		}
 		return Payload{Kind: "none"}
 	}
 }
@@ -331,6 +338,11 @@ func (g *genState) scriptSplitVote() {
 		g.maxIndex = last.KeyperConfigIndex
 	}
 	x, y := mk(g.maxIndex+1), mk(g.maxIndex+2)
+	if len(x.Addrs) >= 2 && r.Chance(45) {
+		// the second candidate is the first one with another threshold, nothing else differs
+		y = x
+		y.T = 1 + (x.T % uint64(len(x.Addrs)))
+	}
 	g.maxIndex += 2
 	g.cands = append(g.cands, x, y)
 	vote := func(k common.Address, p Payload) {
@@ -402,6 +414,39 @@ func (g *genState) scriptReplayAfterSetChange() {
 		}
 	}
 	again()
+}
+
+// scriptDuplicateKeyper: a configuration that lists one keyper twice in a row is put to the vote by everybody,
+// then a proper one, and only the repeated keyper reports the activation block.
+func (g *genState) scriptDuplicateKeyper() {
+	if g.aim == nil {
+		return
+	}
+	last := g.aim.App.Configs[len(g.aim.App.Configs)-1]
+	n := len(last.Keypers)
+	if n < 2 {
+		return
+	}
+	r := g.r
+	if g.maxIndex < last.KeyperConfigIndex {
+		g.maxIndex = last.KeyperConfigIndex
+	}
+	a, b := last.Keypers[r.Intn(n)], last.Keypers[r.Intn(n)]
+	for b == a {
+		b = last.Keypers[r.Intn(n)]
+	}
+	act := last.ActivationBlockNumber
+	g.maxIndex++
+	dup := Payload{Kind: "bc", A: act, T: 2, I: g.maxIndex, Addrs: [][]byte{a.Bytes(), a.Bytes(), b.Bytes()}}
+	g.maxIndex++
+	next := Payload{Kind: "bc", A: act + 1, T: 1, I: g.maxIndex, Addrs: [][]byte{a.Bytes(), b.Bytes()}}
+	for _, k := range last.Keypers {
+		g.script = append(g.script, &TxSpec{Signer: g.signerOf(k), Chain: g.chain, Nonce: g.freshNonce(), P: dup})
+	}
+	for _, k := range last.Keypers {
+		g.script = append(g.script, &TxSpec{Signer: g.signerOf(k), Chain: g.chain, Nonce: g.freshNonce(), P: next})
+	}
+	g.script = append(g.script, &TxSpec{Signer: g.signerOf(a), Chain: g.chain, Nonce: g.freshNonce(), P: Payload{Kind: "bs", A: act + 1}})
 }
 
 // scriptBurst: one keyper fills a block with block-seen reports of increasing numbers (each changes the state)
@@ -527,6 +572,8 @@ func GenHistory(r *hx.Rand, u *Universe, p GenParams) []*Op {
 				g.scriptReplayAfterSetChange()
 			case k < 31:
 				g.scriptBurst(p.TxPerBlock)
+			case k < 36:
+				g.scriptDuplicateKeyper()
 			}
 		}
 		ntx := r.Intn(p.TxPerBlock + 1)
